@@ -9,11 +9,11 @@
 (* the constants of the cfg: the code as it is).                                     *)
 EXTENDS PullCore, Json, IOUtils
 
-VARIABLES l, nbad, m
+VARIABLES l, nbad, m, dup
 Trace == ndJsonDeserialize(IOEnv.VF_TRACE)
 Rng(f) == {f[i] : i \in DOMAIN f}
 Fresh(pre) == [final |-> [b \in Blobs |-> "absent"], part |-> [b \in Blobs |-> NoPart], man |-> (IF pre = "old" THEN "old" ELSE "absent")]
-Init == l = 1 /\ nbad = 0 /\ m = Fresh("none")
+Init == l = 1 /\ nbad = 0 /\ m = Fresh("none") /\ dup = FALSE
 
 FOf(e) == [s \in Slots |-> IF \E x \in Rng(e.fl) : x.slot = s[1] /\ x.b = s[2]
                             THEN (CHOOSE x \in Rng(e.fl) : x.slot = s[1] /\ x.b = s[2]).f ELSE "ok"]
@@ -34,19 +34,20 @@ Drift(e, p) ==
 
 Step == /\ l <= Len(Trace) /\ l' = l + 1
         /\ LET e == Trace[l] IN
-             IF e.ev = "reset" THEN m' = Fresh(e.pre) /\ nbad' = nbad
+             IF e.ev = "reset" THEN m' = Fresh(e.pre) /\ nbad' = nbad /\ dup' = (e.pre = "dup")
              ELSE IF e.ev = "attempt" THEN
                   LET flags == Attempt(e)
-                      p == AttemptResult(m, FOf(e))
+                      p == AttemptResult(m, FOf(e), dup)
                       d == Drift(e, p) IN
                   /\ (flags # {}) => PrintT(<<"VFBAD", l, e.t, flags>>)
                   /\ (d # {}) => PrintT(<<"VFDRIFT", l, e.t, d>>)
                   /\ nbad' = IF flags # {} THEN nbad + 1 ELSE nbad
                   \* follow the real store, so that one difference does not cascade
                   /\ m' = IF e.man \in {"absent", "old", "new"} THEN Obs(e) ELSE [Obs(e) EXCEPT !.man = m.man]
+                  /\ dup' = dup
              ELSE LET flags == IF e.ev = "crash" THEN {"registry-response-crashed-the-server"} ELSE {} IN
                   /\ (flags # {}) => PrintT(<<"VFBAD", l, e.t, flags>>)
                   /\ nbad' = IF flags # {} THEN nbad + 1 ELSE nbad
-                  /\ m' = m
+                  /\ m' = m /\ dup' = dup
 Accepted == TLCGet("stats").diameter = Len(Trace) + 1
 ===============================================================================
